@@ -75,12 +75,16 @@ type DocStats struct {
 	// defaulted variable): the executor then reports the coercion error and leaves the selection out;
 	// the C01 model does not cover that path (input coercion is C05's), callers discard such cases.
 	DirErrs int
+	// DupPositions counts selection nodes whose (line, column) equals that of an earlier selection node
+	// (must be 0 for parsed documents; the executor's memo key relies on it).
+	DupPositions int
 }
 
 type astConv struct {
 	b     *Built
 	vars  map[string]interface{}
 	stats *DocStats
+	seen  map[[2]int]bool
 }
 
 // DocSexp converts a parsed (and validated) document into the S-expression of the Lean drivers.
@@ -89,7 +93,7 @@ type astConv struct {
 // field node the world key derived from its coerced arguments, or the argument-coercion error.
 // coercedVars are the operation's coerced variable values (validator.CoerceVariableValues).
 func DocSexp(b *Built, doc *ast.Document, coercedVars map[string]interface{}) (hx.Sexp, *DocStats) {
-	c := &astConv{b: b, vars: coercedVars, stats: &DocStats{}}
+	c := &astConv{b: b, vars: coercedVars, stats: &DocStats{}, seen: map[[2]int]bool{}}
 	ops := []hx.Sexp{}
 	frags := []hx.Sexp{}
 	for _, def := range doc.Definitions {
@@ -179,6 +183,10 @@ func (c *astConv) sels(set *ast.SelectionSet, parent schema.NamedType, depth int
 	}
 	for _, sel := range set.Selections {
 		p := sel.Position()
+		if c.seen[[2]int{p.Line, p.Column}] {
+			c.stats.DupPositions++
+		}
+		c.seen[[2]int{p.Line, p.Column}] = true
 		line, col := hx.I(int64(p.Line)), hx.I(int64(p.Column))
 		switch sel := sel.(type) {
 		case *ast.Field:
